@@ -18,7 +18,7 @@ VARIABLE c
 Init == \E b \in 0..(Seeds - 1) : b < NBlocks /\ c = b
 Next == c + Seeds < NBlocks /\ c' = c + Seeds
 
-SameKind(a, b) == a = b \/ (a = "Overflow" /\ b = "Incomplete")
+SameKind(a, b) == a = b \/ (a = "Overflow" /\ b \in {"Incomplete", "NonImplemented"})
 
 Has(r, f) == f \in DOMAIN r
 
